@@ -33,6 +33,9 @@ func tText(c context, s []byte) (context, int) {
 	if mixedSpecial(c.element) && bytes.IndexByte(s, '<') >= 0 {
 		return context{state: stateError, err: errMixedSpecial(c.element)}, len(s)
 	}
+	if c.element.split && bytes.IndexByte(s, '<') >= 0 {
+		return context{state: stateError, err: errSplitName(c.element)}, len(s)
+	}
 	k := 0
 	for {
 		i := k + bytes.IndexByte(s[k:], '<')
@@ -165,6 +168,13 @@ func errMixedSpecial(e element) *Error {
 	return errorf(ErrBranchEnd, nil, 0, "markup in the content of an element that conditional branches named differently (%q), one of them a script, style, textarea or title element", e.names)
 }
 
+// errSplitName is the error for markup in the content of an element whose name is not
+// known because a template node splits it: like for mixedSpecial, only content without
+// markup has a known context.
+func errSplitName(e element) *Error {
+	return errorf(ErrBadHTML, nil, 0, "markup in the content of an element whose name (%q...) is split by a template node", e.name)
+}
+
 // tAttrName is the context transition function for stateAttrName.
 // allVoid reports whether the element is void under every name it may have: if
 // conditional branches chose the element name, the name that happens to be kept
@@ -249,6 +259,9 @@ var (
 func tSpecialTagEnd(c context, s []byte) (context, int) {
 	if mixedSpecial(c.element) && bytes.IndexByte(s, '<') >= 0 {
 		return context{state: stateError, err: errMixedSpecial(c.element)}, len(s)
+	}
+	if c.element.split && bytes.IndexByte(s, '<') >= 0 {
+		return context{state: stateError, err: errSplitName(c.element)}, len(s)
 	}
 	if specialElements[c.element.name] {
 		if i := indexTagEnd(s, []byte(c.element.name)); i != -1 {
